@@ -20,6 +20,28 @@ Theorem c10_released_plan_is_quiescent :
 Proof. exact resumed_release_quiescent. Qed.
 Print Assumptions c10_released_plan_is_quiescent.
 
+(* c10_recovery_converges_partial: the same in the monitor's own terms - the clauses "the released plan is
+   Completed / Failed (/ Stopped)" and "no object of the shape is left Running" of MonRecover.mon_converges hold of every
+   release the flag-free resumed automaton accepts. *)
+From Coercion.Resume Require Import C10Proofs.
+Theorem c10_recovery_converges_partial :
+  forall (sh : shape) (I : image) (tr : list event) (fin : image) (r0 r : rst),
+    rinit sh (dimg_of_image I) (im_reason I) = Some r0 ->
+    cst I OPlan = Running ->
+    rrun dev_none sh r0 (tr ++ [EvRelease fin]) = Some r ->
+    is_terminal (cst fin OPlan) = true /\ left_running dev_none sh I fin = [].
+Proof. exact converges_release_clauses. Qed.
+Print Assumptions c10_recovery_converges_partial.
+
+(* the deviation flags only loosen the release guard: whatever is quiet under fewer flags is quiet under more *)
+Theorem c10_flags_only_loosen :
+  forall (d d' : devs) (sh : shape) (I : dimg) (m : obj -> cell),
+    (dev_R2 d = true -> dev_R2 d' = true) /\ (dev_R3 d = true -> dev_R3 d' = true)
+    /\ (dev_R5 d = true -> dev_R5 d' = true) /\ (dev_R6 d = true -> dev_R6 d' = true) ->
+    quiet d sh I m = true -> quiet d' sh I m = true.
+Proof. exact quiet_mono. Qed.
+Print Assumptions c10_flags_only_loosen.
+
 (* FULL STATEMENT (c10_recovery_converges), kept visible: for I = crash_image sh tr1 k of an accepted tr1 and every
    MAXIMAL trace tr2 the resumed automaton accepts from the repair of I: tr2 ends in EvRelease fin; fin satisfies the
    consistency rules of C04 and has nothing Running; the deferred group of every entered scope has a completed run in
